@@ -14,18 +14,39 @@ gets the `caller` of the scope it is written in), `Codegen/Attrs.lean` (`Tag._pa
 `GoodAll ts` (`Codegen/Calls.lean`, decidable) is the guard of the refinement.  Covered, at any nesting depth: text,
 `${expr | filters}` with def calls by name, `capture(f, …)`, `caller.x(…)`, concatenations and calls as arguments of
 calls; `% if / for / while / try`, `loop`, `<%text filter>`, `return / break / continue`; **`<%def>`s – top-level,
-nested in other defs, and written inside a `<%call>` (reached as `caller.name(…)` or by name from the call's content)
-– with any combination of `buffered` / `filter=` / `decorator=`; `<%call>` with a body and body arguments, in loops, in
-defs, in other call bodies; `caller.body(…)` evaluated any number of times.**  NOT covered (named by the guard):
-`<%block>`, `<%include>`, `cached=`, `<%def>`s under a control line or inside a *nested* `<%call>` of a `<%call>` body
-(mako exports those to the outer `caller` as well), two defs of the same name in one scope – for those the frame-level
-theorems of C13 hold and the behaviour is compared on every run – and the places where mako's generated code deviates
-from the specification, which are recorded findings (see the `…_counterexample` theorems): `<% return %>` inside a
-buffering def (F-C05-2), and `caller.x()` inside the argument list of a `<%call expr>` (what remains of F-C05-1: a def
-called by name while the caller is pending takes it for its own).  The flag `cv` of the guard only marks defs written
-inside a `<%call>` that do not mention `caller` (their `caller` variable is the enclosing `ccall` parameter); since
-/repo 0522f73 it excludes nothing a template can contain.  Repaired in /repo and now inside the guard: a `<%call>`
-run during the argument evaluation of another call (555117c), `caller` in defs written inside a `<%call>` (0522f73).
+nested in other defs, and written inside a `<%call>` (reached as `caller.name(…)` or by name from the call's content):
+directly, below a control line of the content, or inside a nested `<%call>` of the content (mako writes all of those
+into the outer `ccall` and `Spec.callDefsOf` lists them; that the *outer* callee can reach the defs of the nested
+`<%call>` is recorded as F-C05-5 – the harness' reference renderer does not export them – and the specification here
+follows the code: if /repo takes the fix, the `.call` clauses of `callDefs` and `Spec.callDefsOf` go) – with any combination of `buffered` / `filter=` / `decorator=`;
+`<%call>` with a body and body arguments, in loops, in defs, in other call bodies; `caller.body(…)` evaluated any number
+of times; `<%block>`s rendered in place – named blocks of the template body (module-level callables) and anonymous or
+named blocks in defs and loops (closures) – with `buffered` / `filter=` like defs, entered
+without content (`caller` is empty inside), sharing the loop stack of the scope they are written in; `<%include>` of
+another template of the set (its body as a callable of its own module; its named blocks and defs are that module's).**
+In the structured template block names are ≥ `blockBase` (a block is not callable by a name of the template).
+
+NOT covered (named by the guard):
+* `cached=` – the replacement callable `write_cache_decorator` writes looks its `__M_<name>` up by name when it is
+  called; the refinement's closure relation (`ClosRel`) pairs every name of the target with a callable of the
+  specification, which has no second callable for the inner name: it needs an invariant "wrapper and inner are bound
+  together in every reachable scope", threaded through all lemmas about `ClosRel`.  (The reduction itself is easy: the
+  inner callable is the code of the same def with `buffered` instead of `cached`.)
+* a `<%block>` with defs or blocks inside, directly in the content of a `<%call>` (mako writes it into `ccall` *and*
+  hoists its closures into `body()`), or reading the `loop` of a `% for` around it (the guard decides "a loop is
+  active" per callable; a block's closure is written before the loop is entered), and `cached=` blocks.
+* a `<%def>` *inside* a def that a `<%call>` has below a control line: mako exports it to `caller` as well (the lexer
+  hangs everything after a control line under it and `DefVisitor` descends), `Spec.callDefsOf` deliberately does not
+  list it – extending the specification there would write the lexer's accident into it.
+* two callables of the same name in one scope or one `<%call>` (Python keeps the last definition, the model the first).
+For those the frame-level theorems of C13 hold and the behaviour is compared on every run.  Also outside are the places
+where mako's generated code deviates from the specification, which are recorded findings (see the `…_counterexample`
+theorems): `<% return %>` inside a buffering def (F-C05-2), and `caller.x()` inside the argument list of a
+`<%call expr>` (what remains of F-C05-1: a def called by name while the caller is pending takes it for its own).  The
+flag `cv` of the guard only marks defs written inside a `<%call>` that do not mention `caller` (their `caller` variable
+is the enclosing `ccall` parameter); since /repo 0522f73 it excludes nothing a template can contain.  Repaired in /repo
+and now inside the guard: a `<%call>` run during the argument evaluation of another call (555117c), `caller` in defs
+written inside a `<%call>` (0522f73).
 
 All theorems quantify over every template set, every crash point `k`, every fuel and every start state related
 to the specification's arguments (`RelC` / `RelW`; true of the initial state, preserved by every execution).
